@@ -3,13 +3,14 @@
 
    Rust                                   here
    syn::UseTree::{Path,Name,Rename,Glob,Group}   utree
-   UseMacro { mac_name, imp_path }        um  (mod_name is the constant "interthread",
+   UseMacro { mac_name, imp_path: Vec }   um  (mod_name is the constant "interthread",
                                                mac_path the constant interthread::<mac_name>)
    UseMacro::file_self_use                fsu
    UseMacro::update                       update
    UseMacro::is                           is_mac      (syn::Path equality: leading colon + segments)
    UseMacro::exclude                      exclude     (in Text/Example.v, over attributes)
 
+   State of the code modelled: with the fixes dup-attr / abs-path / glob-both / reimport / late-import applied.
    Identifiers are strings; a `syn::Path` of an attribute is (leading `::`?, segments). *)
 From Coq Require Import List String Bool Permutation Lia PeanoNat.
 Import ListNotations.
@@ -45,66 +46,54 @@ End utree_induction.
 
 (* ---- file_self_use ----------------------------------------------------------------------- *)
 
-(* state of the `for _ in 0..len { pop .. insert(0, ..) }` loop over a group: the vector is always
-   `front ++ unprocessed`; items are popped from the END of the unprocessed part and, when they do
-   not import the macro, re-inserted at the FRONT *)
-Inductive gres : Type :=
-| GFound (p : string) (pre un : list utree)    (* import found: vector is pre ++ un *)
-| GNot (front : list utree).                   (* all of the suffix processed, nothing found *)
-
 Definition opt_list {T} (o : option T) : list T := match o with Some x => [x] | None => [] end.
 
-Fixpoint fsu (mac : string) (t : utree) : option string * option utree :=
+(* result: (returned path, paths pushed onto self.imp_path during the call, remaining tree).
+   The group arm scans ALL its elements (pop from the end, re-insert what is left at the front: the order is
+   preserved), pushes every import it finds and returns the last one found; a glob stays in the tree. *)
+Definition fres : Type := (option string * list string * option utree)%type.
+
+Fixpoint fsu (mac : string) (t : utree) : fres :=
   match t with
   | UPath id sub =>
       if id =? INTERTHREAD then
         match fsu mac sub with
-        | (Some p, Some t') => (Some p, Some (UPath id t'))
-        | (None, Some t') => (None, Some (UPath id t'))
-        | (Some p, None) => (Some p, None)
-        | (None, None) => (None, None)
+        | (Some p, ps, Some t') => (Some p, ps, Some (UPath id t'))
+        | (None, ps, Some t') => (None, ps, Some (UPath id t'))
+        | (Some p, ps, None) => (Some p, ps, None)
+        | (None, ps, None) => (None, ps, None)
         end
-      else (None, Some t)
-  | UName id => if id =? mac then (Some mac, None) else (None, Some t)
-  | URename id al => if id =? mac then (Some al, None) else (None, Some t)
-  | UGlob => (Some mac, None)
+      else (None, [], Some t)
+  | UName id => if id =? mac then (Some mac, [], None) else (None, [], Some t)
+  | URename id al => if id =? mac then (Some al, [], None) else (None, [], Some t)
+  | UGlob => (Some mac, [], Some UGlob)
   | UGroup ts =>
-      match (fix go (l : list utree) : gres :=
+      match (fix go (l : list utree) : option string * list string * list utree :=
                match l with
-               | [] => GNot []
+               | [] => (None, [], [])
                | x :: rest =>
                    match go rest with
-                   | GFound p pre un => GFound p pre (x :: un)
-                   | GNot front =>
+                   | (path, ps, items) =>
                        match fsu mac x with
-                       | (Some p, t') => GFound p (opt_list t' ++ front) []
-                       | (None, Some t') => GNot (t' :: front)
-                       | (None, None) => GNot front      (* `t.unwrap()` on None: a panic in the Rust code;
-                                                            unreachable, see fsu_never_none_none *)
+                       | (p, ps', t') =>
+                           (match p with Some n => Some n | None => path end, ps ++ ps' ++ opt_list p, opt_list t' ++ items)
                        end
                    end
                end) ts with
-      | GFound p pre un =>
-          match pre ++ un with
-          | [] => (Some p, None)
-          | items => (Some p, Some (UGroup items))
-          end
-      | GNot _ => (None, Some t)
+      | (Some p, ps, []) => (Some p, ps, None)
+      | (Some p, ps, items) => (Some p, ps, Some (UGroup items))
+      | (None, ps, _) => (None, ps, Some t)
       end
   end.
 
-(* the loop, named (for the proofs) *)
-Fixpoint group_loop (mac : string) (l : list utree) : gres :=
+Fixpoint group_loop (mac : string) (l : list utree) : option string * list string * list utree :=
   match l with
-  | [] => GNot []
+  | [] => (None, [], [])
   | x :: rest =>
       match group_loop mac rest with
-      | GFound p pre un => GFound p pre (x :: un)
-      | GNot front =>
+      | (path, ps, items) =>
           match fsu mac x with
-          | (Some p, t') => GFound p (opt_list t' ++ front) []
-          | (None, Some t') => GNot (t' :: front)
-          | (None, None) => GNot front
+          | (p, ps', t') => (match p with Some n => Some n | None => path end, ps ++ ps' ++ opt_list p, opt_list t' ++ items)
           end
       end
   end.
@@ -112,22 +101,21 @@ Fixpoint group_loop (mac : string) (l : list utree) : gres :=
 Lemma fsu_group : forall mac ts,
   fsu mac (UGroup ts) =
   match group_loop mac ts with
-  | GFound p pre un => match pre ++ un with [] => (Some p, None) | items => (Some p, Some (UGroup items)) end
-  | GNot _ => (None, Some (UGroup ts))
+  | (Some p, ps, []) => (Some p, ps, None)
+  | (Some p, ps, items) => (Some p, ps, Some (UGroup items))
+  | (None, ps, _) => (None, ps, Some (UGroup ts))
   end.
 Proof.
   intros mac ts. simpl.
-  assert (E : (fix go (l : list utree) : gres :=
+  assert (E : (fix go (l : list utree) : option string * list string * list utree :=
                match l with
-               | [] => GNot []
+               | [] => (None, [], [])
                | x :: rest =>
                    match go rest with
-                   | GFound p pre un => GFound p pre (x :: un)
-                   | GNot front =>
+                   | (path, ps, items) =>
                        match fsu mac x with
-                       | (Some p, t') => GFound p (opt_list t' ++ front) []
-                       | (None, Some t') => GNot (t' :: front)
-                       | (None, None) => GNot front
+                       | (p, ps', t') =>
+                           (match p with Some n => Some n | None => path end, ps ++ ps' ++ opt_list p, opt_list t' ++ items)
                        end
                    end
                end) ts = group_loop mac ts).
@@ -159,12 +147,21 @@ Definition oleaves (o : option utree) : list pleaf := match o with Some t => lea
 Definition leaf_is (mac : string) (l : leaf) : bool :=
   match l with LName id => id =? mac | LRename id _ => id =? mac | LGlob => true end.
 
+Definition is_glob (l : leaf) : bool := match l with LGlob => true | _ => false end.
+
 Definition vis (mac : string) (pl : pleaf) : bool :=
   forallb (fun s => s =? INTERTHREAD) (fst pl) && leaf_is mac (snd pl).
+
+(* the importing leaves that are taken out of the tree: all but the globs *)
+Definition keep (mac : string) (pl : pleaf) : bool := negb (vis mac pl) || is_glob (snd pl).
 
 (* the name under which the leaf binds the macro *)
 Definition bind (mac : string) (l : leaf) : string :=
   match l with LName _ => mac | LRename _ al => al | LGlob => mac end.
+
+(* bindings of the macro-importing leaves, in source order *)
+Definition vis_binds (mac : string) (ls : list pleaf) : list string :=
+  map (fun pl => bind mac (snd pl)) (filter (vis mac) ls).
 
 Lemma vis_push_inter : forall mac pl, vis mac (push INTERTHREAD pl) = vis mac pl.
 Proof. intros mac [p l]. unfold vis, push. simpl. reflexivity. Qed.
@@ -172,147 +169,155 @@ Proof. intros mac [p l]. unfold vis, push. simpl. reflexivity. Qed.
 Lemma vis_push_other : forall mac id pl, (id =? INTERTHREAD) = false -> vis mac (push id pl) = false.
 Proof. intros mac id [p l] H. unfold vis, push. simpl. rewrite H. reflexivity. Qed.
 
-Lemma existsb_map_push_inter : forall mac l, existsb (vis mac) (map (push INTERTHREAD) l) = existsb (vis mac) l.
-Proof. induction l; simpl; auto. rewrite vis_push_inter, IHl. reflexivity. Qed.
+Lemma vis_binds_app : forall mac a b, vis_binds mac (a ++ b) = vis_binds mac a ++ vis_binds mac b.
+Proof. intros. unfold vis_binds. rewrite filter_app, map_app. reflexivity. Qed.
 
-Lemma existsb_map_push_other : forall mac id l, (id =? INTERTHREAD) = false -> existsb (vis mac) (map (push id) l) = false.
-Proof. induction l; simpl; auto. intros H. rewrite vis_push_other, IHl; auto. Qed.
+Lemma vis_binds_push_inter : forall mac l, vis_binds mac (map (push INTERTHREAD) l) = vis_binds mac l.
+Proof.
+  intros mac l. unfold vis_binds. induction l as [|pl l IH]; simpl; auto.
+  rewrite vis_push_inter. destruct (vis mac pl); simpl; rewrite IH; reflexivity.
+Qed.
 
-(* ---- the specification of file_self_use ---------------------------------------------------- *)
+Lemma vis_binds_push_other : forall mac id l, (id =? INTERTHREAD) = false -> vis_binds mac (map (push id) l) = [].
+Proof.
+  intros mac id l H. unfold vis_binds. induction l as [|pl l IH]; simpl; auto.
+  rewrite vis_push_other; auto.
+Qed.
 
-(* what `file_self_use mac t` returns:
-   - no leaf of t is an import of the macro: (None, Some t), t untouched;
-   - otherwise: the binding name of the LAST such leaf (source order), and a tree whose leaves are
-     all the other leaves of t (order inside groups may be rotated), or None when nothing is left. *)
-Definition fsu_post (mac : string) (t : utree) (r : option string * option utree) : Prop :=
-  match r with
-  | (None, r2) => r2 = Some t /\ existsb (vis mac) (leaves t) = false
-  | (Some n, r2) => exists l1 lf l2, leaves t = l1 ++ lf :: l2 /\ vis mac lf = true /\ bind mac (snd lf) = n
-                                      /\ existsb (vis mac) l2 = false /\ Permutation (oleaves r2) (l1 ++ l2)
-  end.
+Lemma filter_keep_push_inter : forall mac l, filter (keep mac) (map (push INTERTHREAD) l) = map (push INTERTHREAD) (filter (keep mac) l).
+Proof.
+  intros mac l. induction l as [|pl l IH]; simpl; auto.
+  assert (K : keep mac (push INTERTHREAD pl) = keep mac pl) by (unfold keep; rewrite vis_push_inter; reflexivity).
+  rewrite K. destruct (keep mac pl); simpl; rewrite IH; reflexivity.
+Qed.
 
-Definition gres_post (mac : string) (l : list utree) (g : gres) : Prop :=
-  match g with
-  | GNot front => front = l /\ existsb (vis mac) (flat_map leaves l) = false
-  | GFound n pre un => exists l1 lf l2, flat_map leaves l = l1 ++ lf :: l2 /\ vis mac lf = true /\ bind mac (snd lf) = n
-                                      /\ existsb (vis mac) l2 = false /\ Permutation (flat_map leaves (pre ++ un)) (l1 ++ l2)
-  end.
+Lemma filter_keep_push_other : forall mac id l, (id =? INTERTHREAD) = false -> filter (keep mac) (map (push id) l) = map (push id) l.
+Proof.
+  intros mac id l H. induction l as [|pl l IH]; simpl; auto.
+  unfold keep at 1. rewrite vis_push_other; auto. simpl. rewrite IH. reflexivity.
+Qed.
 
 Lemma flat_map_app' : forall {A B} (f : A -> list B) l1 l2, flat_map f (l1 ++ l2) = flat_map f l1 ++ flat_map f l2.
 Proof. intros. induction l1; simpl; auto. rewrite IHl1, app_assoc. reflexivity. Qed.
 
-Lemma group_loop_spec : forall mac l, Forall (fun t => fsu_post mac t (fsu mac t)) l -> gres_post mac l (group_loop mac l).
+(* ---- the specification of file_self_use ---------------------------------------------------- *)
+
+Definition seteq (a b : list string) : Prop := incl a b /\ incl b a.
+
+Definition names (r : fres) : list string := snd (fst r) ++ opt_list (fst (fst r)).
+
+(* what `file_self_use mac t` does:
+   - the paths it reports (pushed or returned) are exactly the names bound by the importing leaves of t;
+   - the remaining tree has exactly the leaves that are kept (everything but the importing names and renames), in order;
+   - nothing found: nothing pushed, the tree is returned untouched. *)
+Definition fsu_post (mac : string) (t : utree) (r : fres) : Prop :=
+  seteq (names r) (vis_binds mac (leaves t))
+  /\ oleaves (snd r) = filter (keep mac) (leaves t)
+  /\ (fst (fst r) = None -> snd (fst r) = [] /\ snd r = Some t /\ vis_binds mac (leaves t) = []).
+
+Definition gl_post (mac : string) (l : list utree) (g : option string * list string * list utree) : Prop :=
+  match g with
+  | (path, ps, items) =>
+      seteq ps (vis_binds mac (flat_map leaves l))
+      /\ flat_map leaves items = filter (keep mac) (flat_map leaves l)
+      /\ (forall n, path = Some n -> In n ps)
+      /\ (path = None -> ps = [] /\ vis_binds mac (flat_map leaves l) = [])
+  end.
+
+Lemma seteq_nil_l : forall b, seteq [] b -> b = [].
+Proof. intros b [_ H]. destruct b; auto. exfalso. apply (H s). left. reflexivity. Qed.
+
+Lemma group_loop_spec : forall mac l, Forall (fun t => fsu_post mac t (fsu mac t)) l -> gl_post mac l (group_loop mac l).
 Proof.
   intros mac l H. induction H as [|x r Hx Hr IH]; simpl.
-  - split; reflexivity.
-  - destruct (group_loop mac r) as [n pre un | front]; simpl in IH.
-    + destruct IH as (l1 & lf & l2 & E & V & B & N & Pm). simpl.
-      exists (leaves x ++ l1), lf, l2. repeat split; auto.
-      * rewrite E, app_assoc. reflexivity.
-      * rewrite flat_map_app'. simpl. rewrite flat_map_app' in Pm.
-        rewrite <- app_assoc.
-        apply Permutation_trans with (leaves x ++ flat_map leaves pre ++ flat_map leaves un).
-        { rewrite !app_assoc. apply Permutation_app_tail. apply Permutation_app_comm. }
-        apply Permutation_app_head. exact Pm.
-    + destruct IH as [Ef Nr]. subst front.
-      destruct (fsu mac x) as [[n|] r2] eqn:Ex; simpl in Hx.
-      * destruct Hx as (l1 & lf & l2 & E & V & B & N & Pm). simpl.
-        exists l1, lf, (l2 ++ flat_map leaves r). repeat split; auto.
-        -- rewrite E, <- app_assoc. reflexivity.
-        -- rewrite existsb_app, N, Nr. reflexivity.
-        -- rewrite app_nil_r, flat_map_app'.
-           replace (flat_map leaves (opt_list r2)) with (oleaves r2) by (destruct r2; simpl; rewrite ?app_nil_r; reflexivity).
-           rewrite app_assoc. apply Permutation_app_tail. exact Pm.
-      * destruct Hx as [E N]. subst r2. simpl. split; auto.
-        rewrite existsb_app, N, Nr. reflexivity.
+  - repeat split; try (intros ? ?; contradiction); try discriminate; auto.
+  - destruct (group_loop mac r) as [[path ps] items]. destruct IH as (S & F & P & N).
+    destruct (fsu mac x) as [[p ps'] t'] eqn:Ex. destruct Hx as (Sx & Fx & Nx). unfold names in Sx. simpl in *.
+    rewrite vis_binds_app, filter_app. repeat split.
+    + intros n I. apply in_app_or in I. apply in_or_app. destruct I as [I|I].
+      * right. apply (proj1 S). exact I.
+      * left. apply (proj1 Sx). exact I.
+    + intros n I. apply in_app_or in I. apply in_or_app. destruct I as [I|I].
+      * right. apply (proj2 Sx). exact I.
+      * left. apply (proj2 S). exact I.
+    + rewrite flat_map_app'. rewrite F.
+      replace (flat_map leaves (opt_list t')) with (oleaves t') by (destruct t'; simpl; rewrite ?app_nil_r; reflexivity).
+      rewrite Fx. reflexivity.
+    + intros n E. destruct p as [q|].
+      * inversion E; subst. apply in_or_app. right. apply in_or_app. right. left. reflexivity.
+      * apply in_or_app. left. apply P. exact E.
+    + destruct p; try discriminate. destruct (N H) as [N1 N2]. destruct (Nx eq_refl) as (X1 & X2 & X3).
+      subst. reflexivity.
+    + destruct p; try discriminate. destruct (N H) as [N1 N2]. destruct (Nx eq_refl) as (X1 & X2 & X3).
+      rewrite X3, N2. reflexivity.
 Qed.
 
 Theorem fsu_spec : forall mac t, fsu_post mac t (fsu mac t).
 Proof.
   intros mac t. induction t as [id s IH | id | id al | | ts IH] using utree_ind'.
   - (* path *) simpl. destruct (id =? INTERTHREAD) eqn:Ei.
-    + apply String.eqb_eq in Ei. subst id.
-      destruct (fsu mac s) as [[n|] [s'|]]; simpl in IH |- *.
-      * destruct IH as (l1 & lf & l2 & E & V & B & N & Pm).
-        exists (map (push INTERTHREAD) l1), (push INTERTHREAD lf), (map (push INTERTHREAD) l2).
-        repeat split.
-        -- rewrite E, map_app. reflexivity.
-        -- rewrite vis_push_inter. exact V.
-        -- destruct lf; exact B.
-        -- rewrite existsb_map_push_inter. exact N.
-        -- rewrite <- map_app. apply Permutation_map. exact Pm.
-      * destruct IH as (l1 & lf & l2 & E & V & B & N & Pm).
-        exists (map (push INTERTHREAD) l1), (push INTERTHREAD lf), (map (push INTERTHREAD) l2).
-        repeat split.
-        -- rewrite E, map_app. reflexivity.
-        -- rewrite vis_push_inter. exact V.
-        -- destruct lf; exact B.
-        -- rewrite existsb_map_push_inter. exact N.
-        -- rewrite <- map_app. change (@nil pleaf) with (map (push INTERTHREAD) []). apply Permutation_map. exact Pm.
-      * destruct IH as [E N]. inversion E; subst s'. split; auto.
-        rewrite existsb_map_push_inter. exact N.
-      * destruct IH as [E _]. discriminate E.
-    + simpl. split; auto. apply existsb_map_push_other. exact Ei.
-  - (* name *) simpl. destruct (id =? mac) eqn:E; simpl.
-    + exists [], ([], LName id), []. repeat split; auto; try (unfold vis; simpl; rewrite E; reflexivity).
-    + split; auto; try (unfold vis; simpl; rewrite E; reflexivity).
-  - (* rename *) simpl. destruct (id =? mac) eqn:E; simpl.
-    + exists [], ([], LRename id al), []. repeat split; auto; try (unfold vis; simpl; rewrite E; reflexivity).
-    + split; auto; try (unfold vis; simpl; rewrite E; reflexivity).
-  - (* glob *) simpl. exists [], ([], LGlob), []. repeat split; auto.
+    + apply String.eqb_eq in Ei. subst id. destruct IH as (S & F & N).
+      assert (Q : fsu_post mac (UPath INTERTHREAD s)
+                    (fst (fst (fsu mac s)), snd (fst (fsu mac s)), option_map (UPath INTERTHREAD) (snd (fsu mac s)))).
+      { unfold fsu_post, names in *. simpl. rewrite vis_binds_push_inter, filter_keep_push_inter. repeat split.
+        - apply S. - apply S.
+        - destruct (snd (fsu mac s)); simpl in *; rewrite <- F; reflexivity.
+        - apply N; assumption.
+        - destruct (N H) as (_ & E & _). rewrite E. reflexivity.
+        - apply N; assumption. }
+      destruct (fsu mac s) as [[[p|] ps] [s'|]]; exact Q.
+    + unfold fsu_post, names. simpl. rewrite vis_binds_push_other, filter_keep_push_other; auto.
+      repeat split; auto; intros ? ?; assumption.
+  - (* name *) simpl. unfold fsu_post, names, vis_binds, keep, vis. destruct (id =? mac) eqn:E; simpl; rewrite E; simpl;
+      repeat split; auto; try discriminate; intros ? ?; assumption.
+  - (* rename *) simpl. unfold fsu_post, names, vis_binds, keep, vis. destruct (id =? mac) eqn:E; simpl; rewrite E; simpl;
+      repeat split; auto; try discriminate; intros ? ?; assumption.
+  - (* glob *) simpl. unfold fsu_post, names, vis_binds, keep, vis. simpl. repeat split; auto; try discriminate; intros ? ?; assumption.
   - (* group *) rewrite fsu_group. pose proof (group_loop_spec mac ts IH) as G.
-    destruct (group_loop mac ts) as [n pre un | front]; simpl in G.
-    + destruct G as (l1 & lf & l2 & E & V & B & N & Pm).
-      assert (Q : fsu_post mac (UGroup ts) (Some n, match pre ++ un with [] => None | _ => Some (UGroup (pre ++ un)) end)).
-      { simpl. exists l1, lf, l2. repeat split; auto.
-        destruct (pre ++ un) eqn:Epu; simpl in *; exact Pm. }
-      destruct (pre ++ un); exact Q.
-    + destruct G as [_ N]. simpl. split; auto.
+    destruct (group_loop mac ts) as [[path ps] items]. destruct G as (S & F & P & N).
+    destruct path as [n|].
+    + assert (Q : fsu_post mac (UGroup ts) (Some n, ps, match items with [] => None | _ => Some (UGroup items) end)).
+      { unfold fsu_post, names. simpl. repeat split.
+        - intros m I. apply in_app_or in I. destruct I as [I|[I|[]]]. + apply S; exact I. + subst. apply S. apply P. reflexivity.
+        - intros m I. apply in_or_app. left. apply S. exact I.
+        - rewrite <- F. destruct items; reflexivity.
+        - discriminate. - discriminate. - discriminate. }
+      destruct items; exact Q.
+    + destruct (N eq_refl) as [N1 N2]. subst ps. unfold fsu_post, names. simpl. rewrite N2. repeat split; auto; try (intros ? ?; assumption).
+      (* nothing found: every leaf is kept *)
+      clear - N2. unfold vis_binds in N2. apply map_eq_nil in N2.
+      induction (flat_map leaves ts) as [|pl l IHl]; simpl in *; auto.
+      unfold keep at 1. destruct (vis mac pl); try discriminate. simpl. f_equal. apply IHl. exact N2.
 Qed.
 
-(* the `unwrap()` in the group loop never sees None *)
-Corollary fsu_never_none_none : forall mac t, fsu mac t <> (None, None).
-Proof. intros mac t H. pose proof (fsu_spec mac t) as S. rewrite H in S. simpl in S. destruct S as [E _]. discriminate E. Qed.
+Corollary fsu_none_unchanged : forall mac t ps r, fsu mac t = (None, ps, r) -> ps = [] /\ r = Some t.
+Proof. intros mac t ps r H. pose proof (fsu_spec mac t) as S. rewrite H in S. destruct S as (_ & _ & N). destruct (N eq_refl) as (A & B & _). auto. Qed.
 
-Corollary fsu_none_unchanged : forall mac t r, fsu mac t = (None, r) -> r = Some t.
-Proof. intros mac t r H. pose proof (fsu_spec mac t) as S. rewrite H in S. exact (proj1 S). Qed.
+(* an import of ANOTHER macro (or of the crate) is never taken out: in particular a glob survives the pass of the first macro *)
+Definition imports_mac (mac : string) (pl : pleaf) : bool :=
+  (match fst pl with [c] => c =? INTERTHREAD | _ => false end) && leaf_is mac (snd pl).
 
-(* bindings of the macro-importing leaves, in source order *)
-Definition vis_binds (mac : string) (ls : list pleaf) : list string :=
-  map (fun pl => bind mac (snd pl)) (filter (vis mac) ls).
-
-Definition last_opt {T} (l : list T) : option T := match rev l with x :: _ => Some x | [] => None end.
-
-Lemma last_opt_app : forall {T} (a b : list T), last_opt (a ++ b) = match last_opt b with Some x => Some x | None => last_opt a end.
-Proof. intros T a b. unfold last_opt. rewrite rev_app_distr. destruct (rev b); simpl; reflexivity. Qed.
-
-Lemma filter_none : forall {T} (f : T -> bool) l, existsb f l = false -> filter f l = [].
-Proof. induction l; simpl; auto. intros H. apply orb_false_iff in H. destruct H as [H1 H2]. rewrite H1. auto. Qed.
-
-(* which name `file_self_use` reports: the binding of the last importing leaf *)
-Theorem fsu_reports_last : forall mac t, fst (fsu mac t) = last_opt (vis_binds mac (leaves t)).
+Theorem fsu_keeps_other_macro : forall mac1 mac2 t, (mac2 =? mac1) = false ->
+  filter (imports_mac mac2) (oleaves (snd (fsu mac1 t))) = filter (imports_mac mac2) (leaves t).
 Proof.
-  intros mac t. pose proof (fsu_spec mac t) as S. destruct (fsu mac t) as [[n|] r]; simpl in *.
-  - destruct S as (l1 & lf & l2 & E & V & B & N & _). unfold vis_binds. rewrite E, filter_app. simpl. rewrite V.
-    rewrite (filter_none _ _ N). rewrite map_app. simpl. rewrite last_opt_app. simpl. rewrite B. reflexivity.
-  - destruct S as [_ N]. unfold vis_binds. rewrite (filter_none _ _ N). reflexivity.
-Qed.
-
-(* the leaves that remain are exactly the others *)
-Theorem fsu_keeps_others : forall mac t n r, fsu mac t = (Some n, r) ->
-  exists l1 lf l2, leaves t = l1 ++ lf :: l2 /\ vis mac lf = true /\ Permutation (oleaves r) (l1 ++ l2).
-Proof.
-  intros mac t n r H. pose proof (fsu_spec mac t) as S. rewrite H in S. simpl in S.
-  destruct S as (l1 & lf & l2 & E & V & _ & _ & Pm). exists l1, lf, l2. auto.
+  intros mac1 mac2 t D. destruct (fsu_spec mac1 t) as (_ & F & _). rewrite F. clear F.
+  induction (leaves t) as [|pl l IH]; simpl; auto.
+  destruct (keep mac1 pl) eqn:K; simpl; rewrite IH; [reflexivity|].
+  destruct (imports_mac mac2 pl) eqn:I; auto. exfalso.
+  unfold keep in K. apply orb_false_iff in K. destruct K as [K1 K2]. apply negb_false_iff in K1.
+  unfold imports_mac in I. apply andb_true_iff in I. destruct I as [_ I]. unfold vis in K1. apply andb_true_iff in K1. destruct K1 as [_ K1].
+  destruct (snd pl); simpl in *; try discriminate.
+  - apply String.eqb_eq in I. apply String.eqb_eq in K1. subst. rewrite String.eqb_refl in D. discriminate.
+  - apply String.eqb_eq in I. apply String.eqb_eq in K1. subst. rewrite String.eqb_refl in D. discriminate.
 Qed.
 
 (* ---- UseMacro: state, update, is ----------------------------------------------------------- *)
 
 Record apath : Type := { lead : bool; segs : list string }.       (* attribute path: leading `::`, segments *)
 
-Record um : Type := { um_mac : string; um_imp : option string }.
+Record um : Type := { um_mac : string; um_imp : list string }.
 
-Definition um_new (mac : string) : um := {| um_mac := mac; um_imp := None |}.
+Definition um_new (mac : string) : um := {| um_mac := mac; um_imp := [] |}.
 
 Fixpoint list_eqb (a b : list string) : bool :=
   match a, b with
@@ -328,74 +333,70 @@ Proof.
   - inversion H; subst. rewrite String.eqb_refl. simpl. apply IH. reflexivity.
 Qed.
 
+(* `::interthread::mac` : the leading colon is dropped and the path compared with mac_path only;
+   otherwise mac_path or any of the remembered imports *)
 Definition is_mac (u : um) (p : apath) : bool :=
-  negb (lead p) &&
-  (list_eqb [INTERTHREAD; um_mac u] (segs p)
-   || match um_imp u with Some n => list_eqb [n] (segs p) | None => false end).
+  if lead p then list_eqb [INTERTHREAD; um_mac u] (segs p)
+  else list_eqb [INTERTHREAD; um_mac u] (segs p) || existsb (fun n => list_eqb [n] (segs p)) (um_imp u).
 
 Definition update (u : um) (t : utree) : um * option utree :=
   match fsu (um_mac u) t with
-  | (Some p, r) => ({| um_mac := um_mac u; um_imp := Some p |}, r)
-  | (None, r) => (u, r)
+  | (Some p, ps, r) => ({| um_mac := um_mac u; um_imp := um_imp u ++ ps ++ [p] |}, r)
+  | (None, ps, r) => ({| um_mac := um_mac u; um_imp := um_imp u ++ ps |}, r)
   end.
+
+Definition upd_names (mac : string) (t : utree) : list string := names (fsu mac t).
+
+Lemma update_eq : forall u t, update u t = ({| um_mac := um_mac u; um_imp := um_imp u ++ upd_names (um_mac u) t |}, snd (fsu (um_mac u) t)).
+Proof. intros u t. unfold update, upd_names, names. destruct (fsu (um_mac u) t) as [[[p|] ps] r]; simpl; rewrite ?app_nil_r; reflexivity. Qed.
 
 (* the import state after the `use` items seen so far *)
 Definition track (mac : string) (uses : list utree) : um :=
   fold_left (fun u t => fst (update u t)) uses (um_new mac).
 
-Lemma update_mac : forall u t, um_mac (fst (update u t)) = um_mac u.
-Proof. intros u t. unfold update. destruct (fsu (um_mac u) t) as [[p|] r]; reflexivity. Qed.
-
-Lemma update_imp : forall u t, um_imp (fst (update u t)) =
-  match last_opt (vis_binds (um_mac u) (leaves t)) with Some n => Some n | None => um_imp u end.
-Proof.
-  intros u t. rewrite <- fsu_reports_last. unfold update. destruct (fsu (um_mac u) t) as [[p|] r]; reflexivity.
-Qed.
-
-Lemma vis_binds_app : forall mac a b, vis_binds mac (a ++ b) = vis_binds mac a ++ vis_binds mac b.
-Proof. intros. unfold vis_binds. rewrite filter_app, map_app. reflexivity. Qed.
-
 Lemma track_gen : forall uses u,
-  let u' := fold_left (fun u t => fst (update u t)) uses u in
-  um_mac u' = um_mac u /\
-  um_imp u' = match last_opt (vis_binds (um_mac u) (flat_map leaves uses)) with Some n => Some n | None => um_imp u end.
+  fold_left (fun u t => fst (update u t)) uses u = {| um_mac := um_mac u; um_imp := um_imp u ++ flat_map (upd_names (um_mac u)) uses |}.
 Proof.
   induction uses as [|t r IH]; intros u; simpl.
-  - split; reflexivity.
-  - destruct (IH (fst (update u t))) as [M I]. simpl in M, I. split.
-    + rewrite M. apply update_mac.
-    + rewrite I, update_mac, update_imp, vis_binds_app, last_opt_app.
-      destruct (last_opt (vis_binds (um_mac u) (flat_map leaves r))); reflexivity.
+  - rewrite app_nil_r. destruct u; reflexivity.
+  - rewrite IH, update_eq. simpl. rewrite app_assoc. reflexivity.
 Qed.
 
-(* single slot, last import wins *)
-Theorem track_last : forall mac uses,
-  um_mac (track mac uses) = mac /\ um_imp (track mac uses) = last_opt (vis_binds mac (flat_map leaves uses)).
+Lemma upd_names_flat : forall mac uses, seteq (flat_map (upd_names mac) uses) (vis_binds mac (flat_map leaves uses)).
 Proof.
-  intros mac uses. destruct (track_gen uses (um_new mac)) as [M I]. simpl in M, I. unfold track. split; auto.
-  rewrite I. destruct (last_opt _); reflexivity.
+  intros mac uses. induction uses as [|t r IH]; simpl.
+  - split; intros ? ?; assumption.
+  - rewrite vis_binds_app. destruct (fsu_spec mac t) as (S & _ & _). unfold upd_names. destruct IH as [I1 I2]. destruct S as [S1 S2].
+    split; intros n I; apply in_app_or in I; apply in_or_app; destruct I as [I|I]; auto.
 Qed.
+
+(* every import is remembered *)
+Theorem track_all : forall mac uses,
+  um_mac (track mac uses) = mac /\ seteq (um_imp (track mac uses)) (vis_binds mac (flat_map leaves uses)).
+Proof. intros mac uses. unfold track. rewrite track_gen. simpl. split; auto. apply upd_names_flat. Qed.
+
+Lemma existsb_seteq : forall (f : string -> bool) a b, incl a b -> existsb f a = true -> existsb f b = true.
+Proof. intros f a b I H. apply existsb_exists in H. destruct H as (x & X & F). apply existsb_exists. exists x. auto. Qed.
 
 (* exactly which attribute paths `is` accepts after the `use` items seen so far *)
 Theorem is_exact : forall mac uses p,
   is_mac (track mac uses) p = true <->
-  lead p = false /\ (segs p = [INTERTHREAD; mac] \/ exists n, last_opt (vis_binds mac (flat_map leaves uses)) = Some n /\ segs p = [n]).
+  segs p = [INTERTHREAD; mac] \/ (lead p = false /\ exists n, In n (vis_binds mac (flat_map leaves uses)) /\ segs p = [n]).
 Proof.
-  intros mac uses p. destruct (track_last mac uses) as [M I]. unfold is_mac. rewrite M, I. split.
-  - intros H. apply andb_true_iff in H. destruct H as [L H]. apply negb_true_iff in L. split; auto.
-    apply orb_true_iff in H. destruct H as [H|H].
-    + left. apply list_eqb_eq in H. auto.
-    + right. destruct (last_opt _) as [n|]; try discriminate. exists n. split; auto. apply list_eqb_eq in H. auto.
-  - intros [L [H|(n & E & H)]]; rewrite L; simpl.
-    + rewrite H. simpl. rewrite !String.eqb_refl. reflexivity.
-    + rewrite E, H. simpl. rewrite String.eqb_refl. simpl. apply orb_true_r.
+  intros mac uses p. destruct (track_all mac uses) as [M [I1 I2]]. unfold is_mac. rewrite M. split.
+  - destruct (lead p).
+    + intros H. left. apply list_eqb_eq in H. auto.
+    + intros H. apply orb_true_iff in H. destruct H as [H|H].
+      * left. apply list_eqb_eq in H. auto.
+      * right. split; auto. apply existsb_exists in H. destruct H as (n & In_ & E). exists n. split; auto. apply list_eqb_eq in E. auto.
+  - intros [H|(L & n & In_ & H)].
+    + rewrite H. simpl. rewrite !String.eqb_refl. simpl. destruct (lead p); reflexivity.
+    + rewrite L. apply orb_true_iff. right. apply existsb_exists. exists n. split; auto. rewrite H. apply list_eqb_eq. reflexivity.
 Qed.
 
 (* ---- what the paths SHOULD denote (Rust name resolution restricted to the documented forms) -------- *)
 
 (* names bound to the macro by the use items of the file: interthread::mac, interthread::mac as n, interthread::* *)
-Definition imports_mac (mac : string) (pl : pleaf) : bool := list_eqb [INTERTHREAD] (fst pl) && leaf_is mac (snd pl).
-
 Definition mac_names (mac : string) (ls : list pleaf) : list string :=
   map (fun pl => bind mac (snd pl)) (filter (imports_mac mac) ls).
 
@@ -427,7 +428,7 @@ Definition well_imported (mac : string) (uses : list utree) : bool :=
 Lemma imports_vis : forall mac pl, imports_mac mac pl = true -> vis mac pl = true.
 Proof.
   intros mac [p l] H. unfold imports_mac, vis in *. cbn [fst snd] in *. apply andb_true_iff in H. destruct H as [H1 H2].
-  apply list_eqb_eq in H1. subst p. cbn [forallb]. rewrite String.eqb_refl, H2. reflexivity.
+  destruct p as [|c [|c' r]]; try discriminate. cbn [forallb]. rewrite H1, H2. reflexivity.
 Qed.
 
 Lemma mem_In : forall s l, mem s l = true <-> In s l.
@@ -437,10 +438,10 @@ Proof.
   - intros I. exists s. split; auto. apply String.eqb_refl.
 Qed.
 
-Lemma last_opt_In : forall {T} (l : list T) x, last_opt l = Some x -> In x l.
+Lemma mac_names_incl : forall mac ls, incl (mac_names mac ls) (vis_binds mac ls).
 Proof.
-  intros T l x. unfold last_opt. destruct (rev l) eqn:E; intros H; inversion H; subst.
-  apply in_rev. rewrite E. left. reflexivity.
+  intros mac ls n I. unfold mac_names in I. apply in_map_iff in I. destruct I as (pl & E & F). apply filter_In in F. destruct F as [F1 F2].
+  unfold vis_binds. apply in_map_iff. exists pl. split; auto. apply filter_In. split; auto. apply imports_vis. exact F2.
 Qed.
 
 Lemma vis_binds_sub : forall mac ls, forallb (fun pl => negb (vis mac pl) || imports_mac mac pl) ls = true ->
@@ -459,68 +460,54 @@ Qed.
 Theorem is_sound : forall mac uses p, well_imported mac uses = true ->
   is_mac (track mac uses) p = true -> denotes mac uses p = true.
 Proof.
-  intros mac uses p W H. apply is_exact in H. destruct H as [L [H|(n & E & H)]]; unfold denotes; rewrite H, L; simpl.
+  intros mac uses p W H. apply is_exact in H. destruct H as [H|(L & n & I & H)]; unfold denotes; rewrite H.
   - rewrite !String.eqb_refl. reflexivity.
-  - apply mem_In. rewrite <- (vis_binds_sub mac _ W). apply last_opt_In. exact E.
+  - rewrite L. simpl. apply mem_In. rewrite <- (vis_binds_sub mac _ W). exact I.
 Qed.
 
-(* the inputs on which recognition is known to be incomplete *)
-Definition abs_path (p : apath) : bool := lead p.
+(* the only inputs on which recognition is known to be incomplete: the first segment is an alias of the crate *)
 Definition alias_path (p : apath) : bool := match segs p with [c; _] => negb (c =? INTERTHREAD) | _ => false end.
-Definition multi_import (mac : string) (uses : list utree) : bool :=
-  negb (Nat.leb (List.length (vis_binds mac (flat_map leaves uses))) 1).
 
-Definition known_class (mac : string) (uses : list utree) (p : apath) : bool :=
-  abs_path p || alias_path p || multi_import mac uses.
-
-(* full-strength statement (FALSE, see the three _refuted lemmas):
-     forall mac uses p, well_imported mac uses = true -> denotes mac uses p = true -> is_mac (track mac uses) p = true *)
-Theorem is_complete_guarded : forall mac uses p, well_imported mac uses = true ->
-  known_class mac uses p = false -> denotes mac uses p = true -> is_mac (track mac uses) p = true.
+(* full-strength statement (FALSE, see is_crate_alias_refuted):
+     forall mac uses p, denotes mac uses p = true -> is_mac (track mac uses) p = true *)
+Theorem is_complete_guarded : forall mac uses p,
+  alias_path p = false -> denotes mac uses p = true -> is_mac (track mac uses) p = true.
 Proof.
-  intros mac uses p W K D. unfold known_class in K. apply orb_false_iff in K. destruct K as [K K3].
-  apply orb_false_iff in K. destruct K as [K1 K2]. unfold abs_path in K1. unfold alias_path in K2.
-  apply is_exact. split; auto. unfold denotes in D. rewrite K1 in D. simpl in D.
+  intros mac uses p K D. apply is_exact. unfold denotes in D. unfold alias_path in K.
   destruct (segs p) as [|a [|b [|c r]]] eqn:S; try discriminate.
-  - right. exists a. split; auto. apply mem_In in D. rewrite <- (vis_binds_sub mac _ W) in D.
-    unfold multi_import in K3. apply negb_false_iff in K3. apply Nat.leb_le in K3.
-    destruct (vis_binds mac (flat_map leaves uses)) as [|x [|y l]]; simpl in *.
-    + contradiction.
-    + destruct D as [D|[]]. subst. reflexivity.
-    + lia.
-  - left. apply negb_false_iff in K2. apply String.eqb_eq in K2. subst a.
+  - right. apply andb_true_iff in D. destruct D as [L D]. apply negb_true_iff in L. split; auto.
+    exists a. split; auto. apply mac_names_incl. apply mem_In. exact D.
+  - left. apply negb_false_iff in K. apply String.eqb_eq in K. subst a.
     apply andb_true_iff in D. destruct D as [D _]. apply String.eqb_eq in D. subst b. reflexivity.
 Qed.
 
 Definition ap (l : bool) (s : list string) : apath := {| lead := l; segs := s |}.
 
-(* #[::interthread::actor] *)
-Lemma is_abs_path_refuted : exists mac uses p, well_imported mac uses = true /\ abs_path p = true /\
-  denotes mac uses p = true /\ is_mac (track mac uses) p = false.
-Proof. exists "actor", [], (ap true ["interthread"; "actor"]). vm_compute. auto. Qed.
+(* #[::interthread::actor] is recognised, whatever was imported (was: is_abs_path_refuted) *)
+Theorem is_abs_path : forall mac uses, is_mac (track mac uses) (ap true [INTERTHREAD; mac]) = true.
+Proof. intros. apply is_exact. left. reflexivity. Qed.
+
+(* every name under which the macro was imported is recognised, however many there are and wherever in the
+   `use` items they stand (was: is_reimport_refuted) *)
+Theorem is_every_import : forall mac uses n, In n (mac_names mac (flat_map leaves uses)) ->
+  is_mac (track mac uses) (ap false [n]) = true.
+Proof. intros mac uses n I. apply is_exact. right. split; auto. exists n. split; auto. apply mac_names_incl. exact I. Qed.
 
 (* use interthread as it;  #[it::actor] *)
 Lemma is_crate_alias_refuted : exists mac uses p, well_imported mac uses = true /\ alias_path p = true /\
   denotes mac uses p = true /\ is_mac (track mac uses) p = false.
 Proof. exists "actor", [URename "interthread" "it"], (ap false ["it"; "actor"]). vm_compute. auto. Qed.
 
-(* use interthread::actor; use interthread::actor as act;  #[actor] *)
-Lemma is_reimport_refuted : exists mac uses p, well_imported mac uses = true /\ multi_import mac uses = true /\
-  denotes mac uses p = true /\ is_mac (track mac uses) p = false.
-Proof.
-  exists "actor", [UPath "interthread" (UName "actor"); UPath "interthread" (URename "actor" "act")], (ap false ["actor"]).
-  vm_compute. auto.
-Qed.
-
-(* the guards are satisfiable on a non-trivial input:
-   use std::{fmt, io::*}; use interthread::{family, {actor as act, example}};   #[act] *)
+(* the guards are satisfiable on non-trivial inputs:
+   use std::{fmt, io::*}; use interthread::{family, {actor as act, example}, actor, *};   #[act] #[actor] #[::interthread::actor] *)
 Example is_complete_example :
   let uses := [UPath "std" (UGroup [UName "fmt"; UPath "io" UGlob]);
-               UPath "interthread" (UGroup [UName "family"; UGroup [URename "actor" "act"; UName "example"]])] in
-  let p := ap false ["act"] in
-  well_imported "actor" uses = true /\ known_class "actor" uses p = false /\ denotes "actor" uses p = true
-  /\ is_mac (track "actor" uses) p = true
-  /\ snd (update (um_new "actor") (nth 1 uses UGlob)) = Some (UPath "interthread" (UGroup [UGroup [UName "example"]; UName "family"])).
+               UPath "interthread" (UGroup [UName "family"; UGroup [URename "actor" "act"; UName "example"]; UName "actor"; UGlob])] in
+  well_imported "actor" uses = true
+  /\ alias_path (ap false ["act"]) = false /\ denotes "actor" uses (ap false ["act"]) = true /\ is_mac (track "actor" uses) (ap false ["act"]) = true
+  /\ is_mac (track "actor" uses) (ap false ["actor"]) = true /\ is_mac (track "actor" uses) (ap true ["interthread"; "actor"]) = true
+  /\ is_mac (track "actor" uses) (ap false ["family"]) = false
+  /\ snd (update (um_new "actor") (nth 1 uses UGlob)) = Some (UPath "interthread" (UGroup [UName "family"; UGroup [UName "example"]; UGlob])).
 Proof. vm_compute. auto 10. Qed.
 
 (* printing, for the correspondence with the real `file_self_use` *)
@@ -533,5 +520,5 @@ Fixpoint show_tree (t : utree) : string :=
   | UGroup ts => ("{" ++ String.concat "," (map show_tree ts) ++ "}")%string
   end.
 
-Definition show_fsu (r : option string * option utree) : string :=
-  ((match fst r with Some p => p | None => "-" end) ++ "|" ++ (match snd r with Some t => show_tree t | None => "-" end))%string.
+Definition show_fsu (r : fres) : string :=
+  ((match fst (fst r) with Some p => p | None => "-" end) ++ "|" ++ (match snd r with Some t => show_tree t | None => "-" end))%string.
